@@ -1487,7 +1487,7 @@ func (s *SQLStore) RegisterAttempt(ctx context.Context,
 
 	err := s.db.ExecTx(ctx, sqldb.WriteTxOpt(), func(db SQLQueries) error {
 		// Make sure the payment exists.
-		dbPayment, err := db.FetchPayment(ctx, paymentHash[:])
+		dbPayment, err := fetchPaymentByHash(ctx, db, paymentHash)
 		if err != nil {
 			return err
 		}
